@@ -188,6 +188,11 @@ func drain(def lexer.Definition, in string, extra int) lexOut {
 		}
 		o.eofOK = true
 		for i := 0; i < extra; i++ {
+			// another lexer of the definition is opened on another text and advanced in between
+			if ol, oerr := def.Lex("other", strings.NewReader("a1 ("+in)); oerr == nil {
+				_, _ = ol.Next()
+				_, _ = ol.Next()
+			}
 			tk, err := l.Next()
 			if eof != nil && (err != nil || !tk.EOF() || tk.Pos != eof.Pos) {
 				o.eofOK = false
